@@ -1,4 +1,5 @@
 /* --wrap shims recording the ?gscon / ?lacon / sp_?trsv protocol (linked into drv_api only). */
+#include <math.h>
 #include "slu_mt_ddefs.h"
 #include "slu_scomplex.h"
 #include "slu_dcomplex.h"
@@ -12,11 +13,41 @@ extern int_t __real_slacon_(int_t *, void *, void *, int_t *, void *, int_t *) ;
 extern int_t __real_dlacon_(int_t *, void *, void *, int_t *, void *, int_t *) ;
 extern int_t __real_clacon_(int_t *, void *, void *, void *, int_t *) ;
 extern int_t __real_zlacon_(int_t *, void *, void *, void *, int_t *) ;
-static void lacon_ev(int_t n, int_t kin, int_t kout) { long a[3]; a[0] = n; a[1] = kin; a[2] = kout; vrt_emit("Lacon", -1, 3, a); }
-int_t __wrap_slacon_(int_t *n, void *v, void *x, int_t *isgn, void *est, int_t *kase) { int_t k = *kase, r = __real_slacon_(n, v, x, isgn, est, kase); lacon_ev(*n, k, *kase); return r; }
-int_t __wrap_dlacon_(int_t *n, void *v, void *x, int_t *isgn, void *est, int_t *kase) { int_t k = *kase, r = __real_dlacon_(n, v, x, isgn, est, kase); lacon_ev(*n, k, *kase); return r; }
-int_t __wrap_clacon_(int_t *n, void *v, void *x, void *est, int_t *kase) { int_t k = *kase, r = __real_clacon_(n, v, x, est, kase); lacon_ev(*n, k, *kase); return r; }
-int_t __wrap_zlacon_(int_t *n, void *v, void *x, void *est, int_t *kase) { int_t k = *kase, r = __real_zlacon_(n, v, x, est, kase); lacon_ev(*n, k, *kase); return r; }
+/* Besides kase in / out, the one data-dependent decision of the estimator that can be observed from outside without its statics is logged:
+ * at a call with kase = 2 after a unit vector e_j was handed out (entry JUMP = 4), the estimator goes on iff x[j_last] != max|x| and
+ * iter < 5.  neq = 1 / 0 is that inequality on the vector passed in (real parts for complex data, as i?max1 and the test use them),
+ * -1 when no unit vector precedes (first transposed product).  SluLacon then knows which branch the call MUST take for an
+ * iteration counter that restarts at every estimate. */
+static long lacon_unit_j = -1;
+static long lacon_neq(int_t n, const void *x, int cplx, int dbl, int_t kin)
+{
+    long i, neq = -1; double mx = 0, xl = 0;
+    if (kin == 0) lacon_unit_j = -1;
+    if (kin != 2 || lacon_unit_j < 0 || lacon_unit_j >= n) return -1;
+    for (i = 0; i < n; ++i) {
+	double r = dbl ? ((const double *) x)[cplx ? 2 * i : i] : (double) ((const float *) x)[cplx ? 2 * i : i];
+	if (fabs(r) > mx) mx = fabs(r);
+	if (i == lacon_unit_j) xl = r;
+    }
+    if (!dbl) { neq = ((float) xl != (float) mx); } else neq = (xl != mx);
+    return neq;
+}
+static void lacon_after(int_t n, const void *x, int cplx, int dbl, int_t kin, int_t kout)
+{
+    long i, one = -1, ok = 1;
+    if (!(kin == 2 && kout == 1)) { if (kin != 1 || kout != 2) lacon_unit_j = (kin == 1 && kout == 1) ? -1 : lacon_unit_j; return; }
+    for (i = 0; i < n && ok; ++i) {
+	double r = dbl ? ((const double *) x)[cplx ? 2 * i : i] : (double) ((const float *) x)[cplx ? 2 * i : i];
+	double im = cplx ? (dbl ? ((const double *) x)[2 * i + 1] : (double) ((const float *) x)[2 * i + 1]) : 0.0;
+	if (r == 1.0 && im == 0.0) { if (one >= 0) ok = 0; one = i; } else if (r != 0.0 || im != 0.0) ok = 0;
+    }
+    lacon_unit_j = (ok && one >= 0) ? one : -1;
+}
+static void lacon_ev(int_t n, int_t kin, int_t kout, long neq) { long a[4]; a[0] = n; a[1] = kin; a[2] = kout; a[3] = neq; vrt_emit("Lacon", -1, 4, a); }
+int_t __wrap_slacon_(int_t *n, void *v, void *x, int_t *isgn, void *est, int_t *kase) { int_t k = *kase, r; long q = lacon_neq(*n, x, 0, 0, k); r = __real_slacon_(n, v, x, isgn, est, kase); lacon_after(*n, x, 0, 0, k, *kase); lacon_ev(*n, k, *kase, q); return r; }
+int_t __wrap_dlacon_(int_t *n, void *v, void *x, int_t *isgn, void *est, int_t *kase) { int_t k = *kase, r; long q = lacon_neq(*n, x, 0, 1, k); r = __real_dlacon_(n, v, x, isgn, est, kase); lacon_after(*n, x, 0, 1, k, *kase); lacon_ev(*n, k, *kase, q); return r; }
+int_t __wrap_clacon_(int_t *n, void *v, void *x, void *est, int_t *kase) { int_t k = *kase, r; long q = lacon_neq(*n, x, 1, 0, k); r = __real_clacon_(n, v, x, est, kase); lacon_after(*n, x, 1, 0, k, *kase); lacon_ev(*n, k, *kase, q); return r; }
+int_t __wrap_zlacon_(int_t *n, void *v, void *x, void *est, int_t *kase) { int_t k = *kase, r; long q = lacon_neq(*n, x, 1, 1, k); r = __real_zlacon_(n, v, x, est, kase); lacon_after(*n, x, 1, 1, k, *kase); lacon_ev(*n, k, *kase, q); return r; }
 #define WRAP_TRSV(P) \
 extern int_t __real_sp_##P##trsv(char *, char *, char *, void *, void *, void *, int_t *) ; \
 int_t __wrap_sp_##P##trsv(char *uplo, char *trans, char *diag, void *L, void *U, void *x, int_t *info) \
